@@ -2,7 +2,7 @@
    This file contains nothing else, so the statement cannot be weakened quietly. *)
 From Coq Require Import List ZArith Bool Arith Lia Reals Lra.
 From Flocq Require Import Core.Raux.
-From Inferno Require Import Base.Num Base.NumR Gen.Infra Gen.Interpolation Gen.Extrapolation C01.Ring C01.RingProofs C02.Select C02.RoundTrip C02.SelectProofs.
+From Inferno Require Import Base.Num Base.NumR Gen.Infra C01.Ring C01.RingProofs C02.Select C02.Matching C02.SelectProofs.
 Import ListNotations.
 Theorem insert_scalar_on_grid : forall dt tol : R,
   0 < dt ->
